@@ -674,7 +674,8 @@ fn run_case(rt: &tokio::runtime::Runtime, u: &mut Universe, case: &Value) -> Val
 
 fn main() {
     std::panic::set_hook(Box::new(|_| {}));
-    let rt = tokio::runtime::Builder::new_current_thread().enable_all().build().unwrap();
+    // paused clock: timers fire as soon as every task is idle (back-off sleeps of the retry loop, our own timeouts)
+    let rt = tokio::runtime::Builder::new_current_thread().enable_all().start_paused(true).build().unwrap();
     let mut u = Universe::new();
     let stdin = std::io::stdin();
     let out = std::io::stdout();
